@@ -163,9 +163,8 @@ def loop_case(nsteps=3, d=2):
       kw = dict(self=s, M=M.copy(), vab=np.zeros((1, d)), vcd=np.zeros((1, d)), prior_inv=np.eye(d), step_sizes=steps.copy(),
                 s_best=s_best, l_best=0, it=1)
       missing = [p for p in params if p not in kw]
-      ctx.require('sliced_step_has_the_expected_interface', ctx.cond(not missing), detail='unexpected free variables %s' % missing)
       if missing:
-        return
+        ctx.mismatch('sliced step: free variables the harness cannot supply: %s' % missing)
       out = step(**{k: kw[k] for k in params})
     finally:
       L.scipy = old
